@@ -2325,6 +2325,30 @@ async fn run_case(seed: u64, idx: u64, focus: &str, thorough: bool, fixes: &str)
         discv5::verif::filter::PERMIT_BAN_LIST.write().ban_ips.remove(&ip);
         moves.push(format!("scripted: session with peer {}, its address banned, a PING and a FINDNODE answered (NODES in three packets)", p));
     }
+    // scripted opening: the application knows a record of the peer that advertises another address than
+    // the peer speaks from (given by the user, or learnt from a NODES answer); the peer's handshake
+    // attaches no record: the session is set up, but the node is reported as unverifiable, not as
+    // established (it must not be admitted on the strength of a record nobody checked against a source)
+    if matches!(focus, "c12" | "c01") && rng.chance(1, 6) {
+        let p = rng.below(npeers as u64) as usize;
+        r.net_random(&mut rng, p).await;
+        r.app_answer_wru(0, 4).await;
+        r.net_handshake(&mut rng, FORCE, HsVariant::NoRecord).await;
+        r.w.hist.add("scripted:known_record_with_another_address_then_handshake_without_record");
+        moves.push(format!("scripted: packet of peer {}, the application answers with a record that advertises another address, handshake without a record", p));
+    }
+    // scripted opening: a peer challenges a request of ours, gets the handshake and challenges again,
+    // echoing the handshake packet's nonce: one handshake per request, the request fails
+    if focus == "c03" && retries >= 2 && rng.chance(1, 4) {
+        let p = rng.below(npeers as u64) as usize;
+        r.app_request(&mut rng, p, true, 0).await;
+        let q0 = r.w.reqs.len() - 1;
+        r.net_whoareyou(&mut rng, FORCE + q0).await;
+        r.net_whoareyou(&mut rng, FORCE + q0).await;
+        r.net_whoareyou(&mut rng, FORCE + q0).await;
+        r.w.hist.add("scripted:second_whoareyou_for_the_handshake_packet");
+        moves.push(format!("scripted: request to peer {}, challenged, challenged again for the handshake packet", p));
+    }
     // scripted opening: two handshakes in a row for one challenge, both signed by another node - the first
     // attaches that node's own record (rejected, the challenge stays), the second attaches none (it must
     // not be verified against the record the first one brought along)
